@@ -336,6 +336,93 @@ theorem no_point_lost (pts : List (Pt α)) (els : List (El α)) (h : Legal pts)
           refine List.Sublist.cons _ ?_
           exact List.Sublist.trans (List.sublist_append_left _ _) (quads_sublist mid _ _)
 
+/-! ## the driver's oracle -/
+
+theorem specPath_head (pts : List (Pt α)) (hne : pts ≠ []) :
+    ∃ st rest, expectedStart mid pts = some st ∧ specPath mid pts = .moveTo st :: rest := by
+  cases pts with
+  | nil => exact absurd rfl hne
+  | cons f r =>
+    by_cases hf : f.typ = .move
+    · exact ⟨f.pos, (segments [] r).flatMap (specEls mid), by simp [expectedStart, hf],
+        by simp [specPath, hf]⟩
+    · cases hsp : splitLastOn (f :: r) with
+      | some t =>
+        obtain ⟨pre, s, post⟩ := t
+        exact ⟨s.pos, (segments [] (post ++ pre ++ [s])).flatMap (specEls mid),
+          by simp [expectedStart, hf, hsp], by simp [specPath, hf, hsp]⟩
+      | none =>
+        cases hlast : (f :: r).getLast? with
+        | none => simp at hlast
+        | some last =>
+          exact ⟨mid last.pos f.pos, quads mid ((f :: r).map (·.pos)) (mid last.pos f.pos),
+            by simp [expectedStart, hf, hsp, impliedStart, hlast],
+            by simp [specPath, hf, hsp, impliedStart, hlast]⟩
+
+/-- **the executable rules the driver evaluates on the implementation's path are true of the
+    outline of every legal contour** (so they cannot raise an alarm on correct behaviour, and each
+    of them is a consequence of `toKurbo_eq_spec`). -/
+theorem oracle_accepts_outline [DecidableEq α] (pts : List (Pt α)) (h : Legal pts) :
+    startOK mid pts (specPath mid pts) = true ∧ segCountOK pts (specPath mid pts) = true ∧
+    orderOK pts (specPath mid pts) = true ∧ kindOK mid pts (specPath mid pts) = true ∧
+    closedOK pts (specPath mid pts) = true ∧ noPointLostOK pts (specPath mid pts) = true := by
+  have hk := toKurbo_eq_spec mid pts h
+  have hgood := legal_specSegments pts h
+  have hsegs : ∀ t, splitLastOn pts = some t →
+      ∃ st, specPath mid pts = .moveTo st :: (specSegments pts).flatMap (specEls mid) ∧
+        (specSegments pts).map (·.2) = drawnOnCurves pts := by
+    intro t ht
+    obtain ⟨pre, s, post⟩ := t
+    obtain ⟨hd, hs, _⟩ := splitLastOn_some _ _ _ _ ht
+    obtain ⟨st, h1, h2, _⟩ := oncurves_in_order mid pts _ h hk ⟨s, by rw [hd]; simp, hs⟩
+    exact ⟨st, h1, h2⟩
+  refine ⟨?_, ?_, ?_, ?_, ?_, ?_⟩
+  · by_cases hne : pts = []
+    · subst hne; simp [startOK, expectedStart, specPath]
+    · obtain ⟨st, rest, h1, h2⟩ := specPath_head mid pts hne
+      obtain ⟨st', rest', h3, h4, _⟩ := starts_at_move_or_oncurve mid pts _ h hk hne
+      rw [h2] at h3
+      injection h3 with h5 h6
+      subst h6
+      simp only [startOK, h1, h2, decide_true, Bool.true_and, List.all_eq_true]
+      intro e he
+      simp [h4 e he]
+  · unfold segCountOK
+    cases hsp : splitLastOn pts with
+    | none => rfl
+    | some t =>
+      obtain ⟨st, h1, _⟩ := hsegs t hsp
+      simp only [h1, List.drop_one, List.tail_cons, beq_iff_eq]
+      exact length_flatMap_eq _ _ _ (fun s hs => specEls_length mid s (hgood s hs))
+  · unfold orderOK
+    cases hsp : splitLastOn pts with
+    | none => rfl
+    | some t =>
+      obtain ⟨st, h1, h2⟩ := hsegs t hsp
+      simp only [h1, List.drop_one, List.tail_cons]
+      rw [chunks_flatMap _ _ _ (fun s hs => specEls_length mid s (hgood s hs))]
+      simp only [beq_iff_eq, List.map_map, ← h2]
+      apply List.map_congr_left
+      intro s hs
+      exact specEls_last mid s (hgood s hs).2.1
+  · unfold kindOK
+    cases hsp : splitLastOn pts with
+    | none => rfl
+    | some t =>
+      obtain ⟨st, h1, _⟩ := hsegs t hsp
+      simp only [h1, List.drop_one, List.tail_cons]
+      rw [chunks_flatMap _ _ _ (fun s hs => specEls_length mid s (hgood s hs))]
+      simp
+  · unfold closedOK
+    by_cases hc : isClosed pts = true
+    · by_cases hne : pts = []
+      · subst hne; simp
+      · obtain ⟨st, rest, h1, h2⟩ := closed_returns_to_start mid pts _ h hk hc hne
+        have : pts.isEmpty = false := by cases pts <;> simp_all
+        simp [hc, this, h1, h2]
+    · simp [hc]
+  · exact isSublist_of_sublist _ _ (no_point_lost mid pts _ h hk)
+
 /-! ## transforms -/
 
 /-- **the transform formula** of the property, over any type with `+` and `*` (so also `Float`) -/
